@@ -6,24 +6,32 @@ export GOFLAGS=-mod=mod GOPROXY=off GOSUMDB=off GOTOOLCHAIN=local
 ID="$1"; TIER="${2:-quick}"; shift; shift || true
 export VERIF_TIER="$TIER"
 cd /verif/harness || exit 2
-mkdir -p /verif/.build /verif/evidence /verif/replays
+# Registered commands always build against /repo into /verif/.build. For trying a seeded change on a scratch
+# copy while /repo is busy, VERIF_REPO / VERIF_BUILD point the build at another tree and output directory.
+REPO="${VERIF_REPO:-/repo}"; B="${VERIF_BUILD:-/verif/.build}"
+mkdir -p "$B" /verif/evidence /verif/replays
+MODFLAG=""
+if [ "$REPO" != /repo ]; then
+  sed "s|=> /repo\$|=> $REPO|" go.mod > "$B/go.mod"; cp go.sum "$B/go.sum"; MODFLAG="-modfile=$B/go.mod"
+fi
+export OLBOX_BIN="$B/olbox"
 # build to a private name and rename, so that checks running in parallel never execute a half-written binary
-build() { go build ${2:-} -tags verif -ldflags=-checklinkname=0 -o /verif/.build/$1${3:-}.$$ ./cmd/$1 2>/verif/.build/$1${3:-}.build.log && mv -f /verif/.build/$1${3:-}.$$ /verif/.build/$1${3:-}; }
+build() { go build $MODFLAG ${2:-} -tags verif -ldflags=-checklinkname=0 -o $B/$1${3:-}.$$ ./cmd/$1 2>$B/$1${3:-}.build.log && mv -f $B/$1${3:-}.$$ $B/$1${3:-}; }
 case "$ID" in
   C09) BIN=olc09 ;;
   C16) BIN=olc16 ;;
   *)   BIN=olmon ;;
 esac
 if ! build "$BIN"; then
-  echo "BUILD FAILED for $BIN (see /verif/.build/$BIN.build.log)"; tail -20 /verif/.build/$BIN.build.log; exit 2
+  echo "BUILD FAILED for $BIN (see $B/$BIN.build.log)"; tail -20 $B/$BIN.build.log; exit 2
 fi
 if [ "$BIN" = olmon ]; then
-  if ! build olbox; then echo "BUILD FAILED for olbox"; tail -20 /verif/.build/olbox.build.log; exit 2; fi
+  if ! build olbox; then echo "BUILD FAILED for olbox"; tail -20 $B/olbox.build.log; exit 2; fi
   if [ "$ID" = C07 ]; then
     # the same box built with the Go race detector, used for the concurrent-CheckTx histories
-    if build olbox -race -race; then export OLBOX_RACE_BIN=/verif/.build/olbox-race; else echo "note: race-detector build failed; concurrent histories skipped"; fi
+    if build olbox -race -race; then export OLBOX_RACE_BIN=$B/olbox-race; else echo "note: race-detector build failed; concurrent histories skipped"; fi
   fi
-  exec /verif/.build/olmon check "$ID" "$TIER" "$@"
+  exec $B/olmon check "$ID" "$TIER" "$@"
 else
-  exec /verif/.build/$BIN "$TIER" "$@"
+  exec $B/$BIN "$TIER" "$@"
 fi
